@@ -262,6 +262,8 @@ pub struct Runner {
     /// every op is written here BEFORE it is executed, so that an abort inside the crate (which
     /// `catch_unwind` cannot contain) still leaves the input that caused it
     pub journal: Option<std::fs::File>,
+    /// per snapshot slot: `cols_changed` at the time the snapshot was taken (F12 taint of the slot)
+    pub slot_f12: Vec<bool>,
 }
 
 impl Default for Runner {
@@ -303,6 +305,7 @@ impl Runner {
             slowest: (0.0, String::new()),
             cols_changed: false,
             journal: None,
+            slot_f12: vec![false; NSLOTS],
         }
     }
 
@@ -346,10 +349,15 @@ impl Runner {
         let toks: Vec<&str> = line.trim().split(' ').collect();
         let num = |s: &str| s.parse::<u64>().ok();
         match toks.as_slice() {
-            ["N", r, c, sb, cb] => {
+            ["N", r, c, sb, cb] | ["N", r, c, sb, cb, "keep"] => {
                 let (Some(r), Some(c), Some(sb)) = (num(r), num(c), num(sb)) else {
                     return "BADOP".into();
                 };
+                if toks.len() == 5 {
+                    // a new case: the snapshot slots are emptied (cases are self-contained)
+                    self.slots = vec![None; NSLOTS];
+                    self.slot_f12 = vec![false; NSLOTS];
+                }
                 let rec = Rec { events: vec![], resize_policy: *cb == "resize" };
                 self.ev_mark = 0;
                 self.cols_changed = false;
@@ -427,6 +435,7 @@ impl Runner {
                     Some(s) if (k as usize) < NSLOTS => {
                         let s = s.clone();
                         self.slots[k as usize] = Some(s);
+                        self.slot_f12[k as usize] = self.cols_changed;
                         "ok".into()
                     }
                     _ => "BADOP".into(),
@@ -471,7 +480,16 @@ impl Runner {
                             recv.process(&s.state_formatted());
                             oracle::c19(&s, recv.screen()).or_else(|| oracle::c19(&s, &s.clone()))
                         }
-                        "C02" => slot0.as_ref().and_then(|p| oracle::c02(p, &s).or_else(|| oracle::c02(&s, p))),
+                        "C02" => {
+                            let _ = &slot0;
+                            let mut res = None;
+                            for k in 0..2 {
+                                if let Some(Some(p)) = self.slots.get(k) {
+                                    res = res.or_else(|| oracle::c02(p, &s)).or_else(|| oracle::c02(&s, p));
+                                }
+                            }
+                            res
+                        }
                         "C14" | "C12" => {
                             if args.len() >= 2 {
                                 oracle::c14(&s, args[0], args[1])
